@@ -25,6 +25,7 @@ Inductive sexpr : Type :=
 | SVar (i : nat) (k : Z)
 | SInt (z : Z)
 | SDec (mant : Z) (scale : nat)
+| SDec8 (mant : Z) (scale : nat)          (* a literal with a double-precision exponent letter or kind suffix: 0.1d0, 0.1_8 *)
 | SNeg (e : sexpr)
 | SPar (e : sexpr)
 | SBin (o : binop) (a b : sexpr)
@@ -41,6 +42,7 @@ Section ToExpr.
     | SVar i k => EVar i k
     | SInt z => EInt z
     | SDec m sc => EDec (fst (dec m sc)) (snd (dec m sc))
+    | SDec8 m sc => EDec (fst (dec m sc)) (fst (dec m sc))          (* REAL(8): the Fortran value is the binary64 value *)
     | SNeg a => ENeg (to_expr a)
     | SPar a => EPar (to_expr a)
     | SBin o a b => EBin o (to_expr a) (to_expr b)
@@ -53,7 +55,7 @@ End ToExpr.
 
 Fixpoint s_regroup (e : sexpr) : sexpr :=
   match e with
-  | SVar _ _ | SInt _ | SDec _ _ => e
+  | SVar _ _ | SInt _ | SDec _ _ | SDec8 _ _ => e
   | SNeg a => SNeg (s_regroup a)
   | SPar a => SPar (s_regroup a)
   | SBin o a b =>
@@ -75,11 +77,45 @@ Fixpoint dlook {num} (dflt : num) (tab : list (Z * nat * num * num)) (m : Z) (s 
 
 (* ------------------------------------------------------------------ tokens *)
 Inductive tok : Type :=
-| TInt (z : Z) | TDecT (m : Z) (s : nat) | TId (name : str)
+| TInt (z : Z) | TDecT (m : Z) (s : nat) | TDec8 (m : Z) (s : nat) | TId (name : str)
 | TPlus | TMinus | TStar | TSlash | TPow | TLp | TRp | TComma | TEq.
 
 Definition digit_val (c : ascii) : Z := Z.of_nat (code_of c - 48).
 Definition digits_val (ds : str) : Z := fold_left (fun acc c => (acc * 10 + digit_val c)%Z) ds 0%Z.
+
+(* what may follow the digits of a literal: an exponent part `e+3` / `d-3` and a kind suffix `_8` / `_dp`; returns (decimal exponent,
+   double precision?, rest).  A `d` exponent letter or a kind suffix other than `_4` makes the constant REAL(8). *)
+Definition lex_suffix (l : str) : Z * bool * str :=
+  let '(ex, dbl, r1) :=
+    match l with
+    | c :: r =>
+        if ascii_eqb c "d" || ascii_eqb c "D" || ascii_eqb c "e" || ascii_eqb c "E" then
+          let isd := ascii_eqb c "d" || ascii_eqb c "D" in
+          match r with
+          | sg :: r2 =>
+              if (ascii_eqb sg "+" || ascii_eqb sg "-") && match r2 with d :: _ => is_digit d | [] => false end then
+                let ds := take_while is_digit r2 in
+                ((if ascii_eqb sg "-" then - digits_val ds else digits_val ds)%Z, isd, drop_while is_digit r2)
+              else if is_digit sg then (digits_val (take_while is_digit r), isd, drop_while is_digit r)
+              else (0%Z, false, l)
+          | [] => (0%Z, false, l)
+          end
+        else (0%Z, false, l)
+    | [] => (0%Z, false, l)
+    end in
+  match r1 with
+  | u :: k :: r3 =>
+      if ascii_eqb u "_" && is_id_char k then
+        let kind := take_while is_id_char (k :: r3) in
+        (ex, negb (str_eqb kind (lit "4")), drop_while is_id_char (k :: r3))
+      else (ex, dbl, r1)
+  | _ => (ex, dbl, r1)
+  end.
+(* mantissa / 10^scale * 10^ex as (mantissa', scale') *)
+Definition dec_norm (m : Z) (sc : nat) (ex : Z) : Z * nat :=
+  if (ex <=? Z.of_nat sc)%Z then (m, Z.to_nat (Z.of_nat sc - ex)) else ((m * 10 ^ (ex - Z.of_nat sc))%Z, O).
+Definition dec_tok (m : Z) (sc : nat) (ex : Z) (dbl : bool) : tok :=
+  let '(m', sc') := dec_norm m sc ex in if dbl then TDec8 m' sc' else TDecT m' sc'.
 
 Fixpoint lex (fuel : nat) (l : str) : option (list tok) :=
   match fuel with
@@ -95,15 +131,20 @@ Fixpoint lex (fuel : nat) (l : str) : option (list tok) :=
             match drop_while is_digit l with
             | d :: r2 => if ascii_eqb d "." then
                            let fs := take_while is_digit r2 in
-                           cons (TDecT (digits_val (ds ++ fs)) (length fs)) (drop_while is_digit r2)
-                         else cons (TInt (digits_val ds)) (d :: r2)
+                           let '(ex, dbl, rest) := lex_suffix (drop_while is_digit r2) in
+                           cons (dec_tok (digits_val (ds ++ fs)) (length fs) ex dbl) rest
+                         else let '(ex, dbl, rest) := lex_suffix (d :: r2) in
+                              if Nat.eqb (length rest) (length (d :: r2)) then cons (TInt (digits_val ds)) (d :: r2)     (* no suffix *)
+                              else if ascii_eqb d "_" then cons (TInt (digits_val ds)) rest                                (* integer kind *)
+                              else cons (dec_tok (digits_val ds) 0 ex dbl) rest                                            (* 2d0, 2e3 *)
             | [] => cons (TInt (digits_val ds)) []
             end
           else if ascii_eqb c "." then
             match r with
             | d :: _ => if is_digit d then
                           let fs := take_while is_digit r in
-                          cons (TDecT (digits_val fs) (length fs)) (drop_while is_digit r)
+                          let '(ex, dbl, rest) := lex_suffix (drop_while is_digit r) in
+                          cons (dec_tok (digits_val fs) (length fs) ex dbl) rest
                         else None
             | [] => None
             end
@@ -150,6 +191,7 @@ Fixpoint p_primary (f : nat) (ts : list tok) {struct f} : pres :=
       match ts with
       | TInt z :: r => Some (SInt z, r)
       | TDecT m s :: r => Some (SDec m s, r)
+      | TDec8 m s :: r => Some (SDec8 m s, r)
       | TLp :: r => match p_level2 f' r with Some (e, TRp :: r') => Some (SPar e, r') | _ => None end
       | TId name :: TLp :: r =>
           if str_eqb name (lit "solved_values") then p_term r
@@ -259,6 +301,7 @@ Fixpoint sexpr_eqb (a b : sexpr) : bool :=
   | SVar i k, SVar j l => Nat.eqb i j && Z.eqb k l
   | SInt x, SInt y => Z.eqb x y
   | SDec m s, SDec m' s' => Z.eqb m m' && Nat.eqb s s'
+  | SDec8 m s, SDec8 m' s' => Z.eqb m m' && Nat.eqb s s'
   | SNeg x, SNeg y | SPar x, SPar y | SAbs x, SAbs y | SExp x, SExp y | SLog x, SLog y => sexpr_eqb x y
   | SBin o x1 x2, SBin o' y1 y2 =>
       (match o, o' with OAdd, OAdd | OSub, OSub | OMul, OMul | ODiv, ODiv | OPow, OPow => true | _, _ => false end)
